@@ -43,10 +43,11 @@ type env struct {
 	sigName []string
 	sig0    []string
 	hit     bool // the thing named by c.Kind was applied
+	caps    map[string]int // capacity of the Sym/Tri operands by name
 }
 
 func newEnv(c fcase) *env {
-	return &env{c: c, rng: vk.NewSplitMix(c.Seed ^ 0x6a09e667f3bcc908)}
+	return &env{c: c, rng: vk.NewSplitMix(c.Seed ^ 0x6a09e667f3bcc908), caps: map[string]int{}}
 }
 
 // f returns the dimension v of the operand dimension called name, made wrong
@@ -442,8 +443,10 @@ func (e *env) triView(name string, n, p int, kind mat.TriKind, recv bool) *mat.T
 	N := n + p
 	reg := e.alloc(name, N*N)
 	t := mat.NewTriDense(N, kind, reg.buf)
+	e.caps[name] = N
 	if p > 0 {
 		t = t.SliceTri(i0, i0+n).(*mat.TriDense)
+		e.caps[name] = N - i0
 	}
 	if recv {
 		reg.allowed = make([]bool, N*N)
